@@ -168,6 +168,10 @@ def discharge(ctx, f, c, ce, depth):
                 res.append('%s@%s: %s' % (short(g.id), loc(c2['span']), why))
                 allok = allok and ok
             return allok, 'ESCAPES through the return value of %s; every caller: %s' % (short(f.id), ' ;; '.join(res))
+    # 1b. ERROR-TEXT-ONLY
+    ks = f.exit_kinds_from(c['block'])
+    if ks and ks <= {'err_own', 'err_prop', 'diverge'}:
+        return True, 'ERROR-TEXT-ONLY: every path from this call ends in Err (the order can only show in an error message)'
     # 2. the value is consumed here: find the local it ends up in (collect into a Vec, or a for loop)
     holder = None
     for l, ds in f.defs().items():
@@ -201,10 +205,6 @@ def discharge(ctx, f, c, ce, depth):
                 return False, 'SORTED by %s, but the ordering of %s is hand-written (not #[derive]d): keys that are different may compare equal and keep their hash order' % (key, bad_ord)
             return (not bad and okk), 'SORTED: the collected Vec is sorted (key %s) before any other use; the sort dominates the emitting loop' % key
         return False, 'collected into `%s` and used without sorting' % f.names.get(l)
-    # 2b. ERROR-TEXT-ONLY
-    ks = f.exit_kinds_from(c['block'])
-    if ks and ks <= {'err_own', 'err_prop', 'diverge'}:
-        return True, 'ERROR-TEXT-ONLY: every path from this call ends in Err (the order can only show in an error message)'
     # 2c. worklist of the resolution loop (also compared with its successor for the progress test)
     if re.search(r'TypeRegistry::unresolved$', c['path'] or ''):
         fz = getattr(ctx, 'frozen', None)
@@ -342,13 +342,106 @@ def loop_exit(ctx):
     f = ssb[0]
     where = loc(f.span)
     oks = [x for x in f.exits() if x['kind'] == 'ok']
-    sw = [s for s in f.switches() if is_call(s['cond'], '::is_empty') and find_calls(s['cond'], 'TypeRegistry::unresolved')]
+    MUT = re.compile(r'(TypeRegistry::get_mut|SemanticState::add_item|TypeRegistry::add|type_definition::build|enum_definition::build|Module::resolve_extern_values|HashMap<.*>::(insert|get_mut|entry|remove))$')
+    PURE = re.compile(r'(::is_empty|::len|::deref|::eq|::ne|::clone|::iter|::into_iter|::next|::as_ref|::borrow|::as_slice|::fmt|drop_in_place)$')
+    mut_blocks = {c['block'] for c in f.calls(lambda r: r['path'] and MUT.search((r['callee'].get('rfull') or r['path'])))}
+    ucalls = [c for c in f.calls(lambda r: r['path'] and r['path'].endswith('TypeRegistry::unresolved'))]
+
+    def usites(e, d=0):
+        """blocks of the unresolved() calls whose result `e` can denote (None if `e` can be anything else)"""
+        e = strip(e)
+        if d > 6:
+            return None
+        if is_call(e, 'TypeRegistry::unresolved'):
+            bs = [c['block'] for c in ucalls if strip(f.expr_of_call(c['term'])) == e]
+            return set(bs) or None
+        if e[0] == 'call' and e[2] and re.search(r'(::deref|::as_slice|::as_ref|::borrow|::clone)$', e[1]):
+            return usites(e[2][0], d + 1)
+        if e[0] == 'var':
+            out = set()
+            for df in f.defs().get(e[1], []):
+                if df[2] == 'call' and df[3].get('callee') and df[3]['callee']['path'].endswith('TypeRegistry::unresolved'):
+                    out.add(df[0])
+                    continue
+                if df[2] == 'rv' and df[3].get('k') == 'Use' and (df[3].get('op') or {}).get('k') in ('Move', 'Copy') and not df[3]['op']['place']['proj']:
+                    l2 = df[3]['op']['place']['local']
+                    r_ = usites(('var', l2, f.names.get(l2, '_%d' % l2)), d + 1)
+                else:
+                    r_ = usites(f.expr_of_def(df), d + 1) if f.expr_of_def(df) != e else None
+                if r_ is None:
+                    return None
+                out |= r_
+            return out or None
+        return None
+
+    def lsites(l, d=0):
+        """blocks of the unresolved() calls whose result local `l` can hold or refer to, following copies, moves and borrows
+        in the MIR itself (a single-definition temporary keeps its own call site, which the reconstructed expression loses)"""
+        if d > 8:
+            return None
+        out = set()
+        for df in f.defs().get(l, []):
+            if df[2] == 'call':
+                cal = df[3].get('callee') or {}
+                if cal.get('path', '').endswith('TypeRegistry::unresolved'):
+                    out.add(df[0])
+                    continue
+                if re.search(r'(::deref|::as_slice|::as_ref|::borrow|::clone)$', cal.get('path', '')) and df[3]['args']:
+                    a0 = df[3]['args'][0]
+                    r_ = lsites(a0['place']['local'], d + 1) if a0.get('k') in ('Move', 'Copy') else None
+                    if r_ is None:
+                        return None
+                    out |= r_
+                    continue
+                return None
+            rv = df[3]
+            src = None
+            if rv.get('k') == 'Use' and (rv.get('op') or {}).get('k') in ('Move', 'Copy'):
+                src = rv['op']['place']
+            elif rv.get('k') in ('Ref', 'RawPtr'):
+                src = rv['place']
+            if src is None or any(pe['k'] != 'Deref' for pe in src['proj']):
+                return None
+            r_ = lsites(src['local'], d + 1)
+            if r_ is None:
+                return None
+            out |= r_
+        return out or None
+
+    def opsites(op):
+        if op.get('k') in ('Move', 'Copy') and all(pe['k'] == 'Deref' for pe in op['place']['proj']):
+            return lsites(op['place']['local'])
+        return None
+
+    def fresh_at(sites, block):
+        """no registry mutation can happen between any of the calls and `block`"""
+        for b0 in sites:
+            between = {x for x in f.reach(b0, stop={block}) if block in f.reach(x, stop={b0})} - {b0, block}
+            if between & mut_blocks:
+                return False
+        return True
+    sw = []
+    for s_ in f.switches():
+        c_ = strip(s_['cond'])
+        neg = False
+        while c_[0] == 'un' and c_[1] == 'Not':
+            c_, neg = strip(c_[2]), not neg
+        if is_call(c_, '::is_empty'):
+            st_ = None
+            for cc in f.calls(lambda r: r['path'] and r['path'].endswith('::is_empty')):
+                if strip(f.expr_of_call(cc['term'])) == c_ and (cc['block'] == s_['block'] or f.dominates(cc['block'], s_['block'])):
+                    st_ = opsites(cc['term']['args'][0])
+            if st_:
+                sw.append((s_, neg, st_))
     ok = False
     if len(sw) == 1 and len(oks) == 1:
-        te = [(sw[0]['block'], tgt) for lab, tgt in sw[0]['edges'] if lab is True]
-        ok = unreachable_without(f, oks[0]['block'], removed_edges=te)
+        s_, neg, sites = sw[0]
+        te = [(s_['block'], tgt) for lab, tgt in s_['edges'] if lab is (not neg)]
+        # the tested list is the registry's current worklist: nothing mutates the registry between taking it and testing it
+        ok = unreachable_without(f, oks[0]['block'], removed_edges=te) and fresh_at(sites, s_['block'])
     ctx.ob(['C10', 'C12'], 'R-DOM', 'C10-D1|success-only-when-worklist-empty', ok,
            'Ok(ResolvedSemanticState) can be reached only over the true edge of unresolved().is_empty() (a build never succeeds with an item left unresolved)', where)
+    sw = [x[0] for x in sw]
     # every other way out of the worklist loop is an Err
     outer = None
     for L in f.loops():
@@ -371,15 +464,49 @@ def loop_exit(ctx):
                     ok2 = False
     ctx.ob(['C10', 'C12'], 'R-DOM', 'C10-D1|other-exits-are-errors', ok2, 'every exit of the resolution loop other than the empty-worklist test ends in Err: %s' % det, where)
     # no-progress test: Err when the worklist did not change, and the message lists it
-    gs = [g for g in guards_of(f) if g.kind == 'reject' and g.kinds <= {'err_own'} and len(find_calls(g.pred, 'TypeRegistry::unresolved')) >= 2]
+    gs = []
+    for g in guards_of(f):
+        if g.kind != 'reject' or not g.kinds <= {'err_own'}:
+            continue
+        p_ = g.pred
+        while p_[0] == 'un' and p_[1] == 'Not':
+            p_ = strip(p_[2])
+        if p_[0] == 'call' and re.search(r'::(eq|ne)$', p_[1]) and len(p_[2]) == 2:
+            for cc in f.calls(lambda r: r['path'] and re.search(r'::(eq|ne)$', r['path'])):
+                if strip(f.expr_of_call(cc['term'])) == p_ and (cc['block'] == g.block or f.dominates(cc['block'], g.block)):
+                    sa, sb = opsites(cc['term']['args'][0]), opsites(cc['term']['args'][1])
+                    if sa and sb:
+                        gs.append((g, sa, sb))
     ok3 = False
     if len(gs) == 1 and outer:
         from r_panic import cycle_without
-        ok3 = not cycle_without(f, outer[1], outer[0], {gs[0].block})
-        err = [x for x in f.exits() if x['kind'] == 'err_own']
-        ok3 = ok3 and any(find_calls(x['expr'], 'TypeRegistry::unresolved') for x in err)
+        g, sa, sb = gs[0]
+        h, body, _ = outer
+        ok3 = not cycle_without(f, outer[1], outer[0], {g.block})
+
+        def same_trip_after(sites):
+            # taken in this trip, after the last possible mutation: the call dominates the test and nothing mutates in between
+            return all(b0 in body and f.dominates(b0, g.block) and b0 != h for b0 in sites) and fresh_at(sites, g.block) and \
+                all(not ({x for x in f.reach(b0, stop={h}) if g.block in f.reach(x, stop={h})} - {b0}) & mut_blocks for b0 in sites)
+
+        def before_trip_work(sites):
+            # taken before this trip's resolution attempts: every mutation of the trip lies between the call and the test
+            for b0 in sites:
+                path = {x for x in f.reach(b0) if g.block in f.reach(x, stop=set())}
+                if not (mut_blocks & body):
+                    return False
+                # nothing mutates between the call and the loop header / the first attempt of the trip
+                if b0 in body and f.dominates(h, b0) and all(f.dominates(b0, m) for m in mut_blocks & body):
+                    continue        # taken at the top of this trip
+                to_header = {x for x in f.reach(b0, stop={h})} - {b0}
+                if to_header & mut_blocks:
+                    return False
+            return True
+        ok3 = ok3 and ((same_trip_after(sb) and before_trip_work(sa)) or (same_trip_after(sa) and before_trip_work(sb)))
+        err = [x for x in f.exits() if x['kind'] == 'err_own' and f.dominates(g.tgt, x['block'])]
+        ok3 = ok3 and any(any(isinstance(y, tuple) and y and (is_call(y, 'TypeRegistry::unresolved') or (y[0] == 'var' and usites(y))) for y in walk(expand(f, x['expr']))) for x in err)
     ctx.ob(['C10', 'C12'], 'R-GUARD', 'C10-D1|no-progress-is-error', ok3,
-           'every trip around the resolution loop compares the worklist before and after; no change ⇒ Err whose message interpolates the worklist', gs[0].where() if gs else where)
+           'every trip around the resolution loop compares the worklist before and after; no change ⇒ Err whose message interpolates the worklist', gs[0][0].where() if gs else where)
     # a built item is stored as Resolved under its own path
     st_ok = False
     for l, sts in f.stores().items():
@@ -542,6 +669,66 @@ def binding(ctx):
                         pr = fnd2[0][2][1]
                         ck = pr[0] == 'closure' and pr[1] in P.fns and any(is_call(y['expr'], 'contains_key') for y in P.fns[pr[1]].exits())
                     ok2 = root_first and mods and jn and ck and not any(c_[3].endswith('Iterator::rev') for c_ in calls_in(ce))
+        ok = ok1 and ok2
+    if e is None and len(rs.loops()) == 2:
+        # the same search written as two `for` loops with early returns: first hit of stage 1, else first hit of stage 2, else None
+        Ls = sorted(rs.loops(), key=lambda L_: L_[0])
+        L1, L2 = Ls
+        if not rs.dominates(L1[0], L2[0]) or L2[0] in L1[1]:
+            L1, L2 = L2, L1
+        staged = rs.dominates(L1[0], L2[0]) and L2[0] not in L1[1] and L1[0] not in L2[1]
+        somes = [x for x in rs.exits() if x['kind'] == 'some']
+        nones = [x for x in rs.exits() if x['kind'] == 'none']
+        others = [x for x in rs.exits() if x['kind'] not in ('some', 'none')]
+
+        def stage(L):
+            h_, body_, _ = L
+            sty_, src_ = loop_source(rs, L)
+            src_ = expand(rs, src_)
+            # the hit: a switch in the loop whose one edge leads only to a `Some` return, the other stays in the loop
+            hits = []
+            for s_ in rs.switches():
+                if s_['block'] not in body_ or (s_['cond'][0] == 'discr' and is_call(strip(s_['cond'][1]), 'Iterator::next')):
+                    continue
+                for lab, tgt in s_['edges']:
+                    rets = [x for x in somes if rs.dominates(tgt, x['block'])]
+                    if len(rets) == 1 and rs.exit_kinds_from(tgt) == {'some'}:
+                        hits.append((expand(rs, s_['cond']), lab, expand(rs, rets[0]['expr']), s_['block']))
+            from r_panic import cycle_without
+            every = len(hits) == 1 and not cycle_without(rs, body_, h_, {hits[0][3]})
+            return src_, hits, every
+        src1, hits1, ev1 = stage(L1)
+        src2, hits2, ev2 = stage(L2)
+        det = 'loop form: %s ;; %s' % (show(src1)[:160], show(src2)[:200])
+        ok1 = ok2 = False
+        if staged and ev1 and ev2 and len(somes) == 2 and len(nones) == 1 and not others:
+            chain = [c_[3] for c_ in calls_in(src1)]
+            part = find_calls(src1, 'Iterator::partition')
+            ok1 = len([c_ for c_ in chain if c_.endswith('Iterator::rev')]) == 1 and bool(part) and any(isinstance(x, tuple) and x[0] == 'field' and x[2] == '0' for x in walk(src1)) and \
+                not any(re.search(r'Iterator::(skip|take|filter|step_by|chain)$', c_) for c_ in chain)
+            if part:
+                pc = part[0][2][1]
+                okp = pc[0] == 'closure' and pc[1] in P.fns and any(is_call(x['expr'], 'contains_key') for x in P.fns[pc[1]].exits())
+                psrc = strip(part[0][2][0])
+                ok1 = ok1 and okp and is_call(psrc, 'slice::<impl [T]>::iter') and strip(psrc[2][0])[0] == 'arg'
+            c1, lab1, r1, _b = hits1[0]
+            elem1 = [x for x in walk(c1) if isinstance(x, tuple) and x[0] == 'payload' and x[2] == 'Some' and is_call(strip(x[1]), 'Iterator::next')]
+            okn = is_call(c1, '::eq') and lab1 is True and bool(find_calls(c1, 'ItemPath::last')) and any(isinstance(x, tuple) and x[0] == 'arg' and x[2] == 'name' for x in walk(c1)) and bool(elem1)
+            okr = bool(elem1) and r1[0] == 'agg' and r1[2] and r1[2][0][1][0] == 'agg' and r1[2][0][1][1].endswith('Type::Raw') and any(x == elem1[0] for x in walk(r1))
+            ok1 = ok1 and okn and okr
+            ch = find_calls(src2, 'Iterator::chain')
+            c2, lab2, r2, _b = hits2[0]
+            if len(ch) == 1:
+                a, b = ch[0][2][0], ch[0][2][1]
+                root_first = is_call(a, 'iter::once') and bool(find_calls(a, 'ItemPath::empty'))
+                mods = any(isinstance(x, tuple) and x[0] == 'field' and x[2] == '1' and find_calls(x, 'Iterator::partition') for x in walk(b)) and \
+                    not any(re.search(r'Iterator::(rev|skip|take|filter|step_by)$', c_[3]) for c_ in calls_in(src2))
+                cand = [x for x in walk(c2) if is_call(x, 'ItemPath::join')]
+                elem2 = [x for x in walk(c2) if isinstance(x, tuple) and x[0] == 'payload' and x[2] == 'Some' and is_call(strip(x[1]), 'Iterator::next')]
+                ck = is_call(c2, 'contains_key') and lab2 is True and len(cand) >= 1 and bool(elem2) and any(x == elem2[0] for x in walk(cand[0][2][0])) and \
+                    any(isinstance(x, tuple) and x[0] == 'arg' and x[2] == 'name' for x in walk(cand[0]))
+                okr2 = r2[0] == 'agg' and r2[2] and r2[2][0][1][0] == 'agg' and r2[2][0][1][1].endswith('Type::Raw') and bool(cand) and strip(r2[2][0][1][2][0][1]) == strip(cand[0])
+                ok2 = root_first and mods and ck and okr2
         ok = ok1 and ok2
     ctx.ob(['C11', 'C19'], 'R-EXPR', 'C11-D3|candidate-order', ok,
            'candidates are tried as: imported types whose last segment is the name, last import first; else root::name (built-ins); else <module>::name for the scope modules in scope order; first hit wins: %s' % det, loc(rs.span))
